@@ -27,7 +27,10 @@ CHECK = os.path.join(os.path.dirname(HERE), "check.py")
 
 # corpora (checks whose compiled-code replay is re-run under the sanitizers)
 QUICK = ["C04", "C15"]
-THOROUGH = ["C03", "C04", "C05", "C14", "C15", "C16", "C20", "C22", "C23", "C24", "C26", "C27", "C28", "C32"]
+# thorough: the THOROUGH tier of each corpus, rebuilt with the sanitizers.  Limited to the corpora whose instrumented thorough
+# run was completed on the build machine; C05 C14 C22 C23 C24 C26 C27 C28 C32 can be added with C36_MORE="C05 C14 ..." (their
+# instrumented thorough runs take hours and were not completed in the build round)
+THOROUGH = ["C03", "C04", "C15", "C16", "C20"] + (os.environ.get("C36_MORE") or "").split()
 
 _RE_SUMMARY = re.compile(r"SUMMARY: (\w+Sanitizer): ([\w-]+)(?: [^\n]* in (\w+))?")
 _RE_UBSAN = re.compile(r"runtime error: ([^\n]{0,120})")
